@@ -115,9 +115,33 @@ def escapeFrom (pre : Snap) : List MStep → Bool
   | m :: ms => escapeSurfacesStep pre m && escapeFrom m.snap ms
 def escapeSurfaces (tr : List MStep) : Bool := escapeFrom initSnap tr
 
+/-- Environment contract used with it: a coordinator that has forgotten a member answers a
+    JoinGroup quoting that (non-empty) member id with UnknownMemberId.  So progress after an
+    UnknownMemberId / InvalidGroupId eviction requires that every JoinGroup sent before the next
+    successful join reply quotes the EMPTY member id.  `fresh` = such an eviction has been processed
+    and no join reply has succeeded since. -/
+def forgetsMember : GErr → Bool
+  | .unknownMemberId | .invalidGroupId => true
+  | _ => false
+
+def freshFrom (fresh : Bool) : List MStep → Bool
+  | [] => true
+  | m :: ms =>
+    let processed := m.obs != [.badOp]
+    let fresh0 := match m.ev with
+      | .joinDone (.ok ..) => if processed then false else fresh
+      | _ => fresh
+    let joinsOk := !fresh0 || m.obs.all fun | .join mem => mem == 0 | _ => true
+    let fresh1 := match errorOf m.ev with
+      | some (.request, e) => if processed && forgetsMember e then true else fresh0
+      | _ => fresh0
+    joinsOk && freshFrom fresh1 ms
+
+def freshAfterEviction (tr : List MStep) : Bool := freshFrom false tr
+
 def checks (cfg : Cfg) : List (String × (List MStep → Bool)) :=
   [("neverIdle", neverIdle), ("retriableRejoins", retriableRejoins cfg), ("fatalSurfaces", fatalSurfaces),
-   ("escapeSurfaces", escapeSurfaces)]
+   ("escapeSurfaces", escapeSurfaces), ("freshAfterEviction", freshAfterEviction)]
 
 def failing (cfg : Cfg) (tr : List MStep) : List String := ((checks cfg).filter fun c => !c.2 tr).map (·.1)
 
